@@ -164,6 +164,8 @@ def walk(ck, name, cfg, steps, membership=True, truth=False, episodes=2, idle=0.
                 ck.violation("space-changed-between-episodes", "%s: the observation/action space of episode %d differs from the first one" % (name, ep), {"scenario": name, "episode": ep})
             check_member(ck, env, obs, name, ep, -1, None)
         n = env.action_space.n
+        space_ep = env.observation_space
+        nspace_sig = space_sig(env.agent.observation_manager.space)
         inv = world.inventory(env.game.simulation)
         hist = []
         for st in range(steps):
@@ -199,6 +201,11 @@ def walk(ck, name, cfg, steps, membership=True, truth=False, episodes=2, idle=0.
             ck.evaluations += 1
             if membership:
                 check_member(ck, env, obs, name, ep, st, hist)
+                # the declared space is fixed for the episode: an agent built against the space read at reset relies on it
+                if env.observation_space != space_ep or space_sig(env.agent.observation_manager.space) != nspace_sig:
+                    ck.violation("space-changed-within-episode", "%s: the observation space read after step %d differs from the one read at reset (flat size %s -> %s)"
+                                 % (name, st, flat_size(space_ep), flat_size(env.observation_space)), {"scenario": name, "episode": ep, "step": st, "actions": list(hist)})
+                    return
             if truth:
                 check_truth(ck, env, name, ep, st, hist)
                 mon.check(ck, env, name, ep, st, hist)
@@ -206,6 +213,27 @@ def walk(ck, name, cfg, steps, membership=True, truth=False, episodes=2, idle=0.
                 break
     if mon is not None:
         mon.flush()
+
+
+def space_sig(space):
+    from gymnasium import spaces
+    if isinstance(space, spaces.Dict):
+        return ("D", tuple((k, space_sig(v)) for k, v in space.spaces.items()))
+    if isinstance(space, spaces.Discrete):
+        return ("n", int(space.n))
+    if isinstance(space, spaces.MultiDiscrete):
+        return ("m", tuple(int(x) for x in space.nvec))
+    if isinstance(space, spaces.Box):
+        return ("b", tuple(space.shape), str(space.dtype))
+    return ("?", repr(space))
+
+
+def flat_size(space):
+    try:
+        from gymnasium.spaces import flatdim
+        return flatdim(space)
+    except Exception:
+        return None
 
 
 def check_member(ck, env, obs, name, ep, st, hist):
